@@ -139,6 +139,11 @@ Theorem C20_dcsim_judge_sound : forall pay0 pay1 case out,
   dcsim_judge case out = true -> DcStreamProofs.sim_meaning pay0 pay1 case out.
 Proof. exact DcStreamProofs.dcsim_judge_sound. Qed.
 
+(* the receiver state machine driven alone: what acceptance means *)
+Theorem C20_dcrecv_judge_sound : forall case out,
+  dcrecv_judge case out = true -> DcStreamProofs.recv_meaning out.
+Proof. exact DcStreamProofs.dcrecv_judge_sound. Qed.
+
 (* ... and its content conditions follow from the model: every reachable model state is accepted *)
 Theorem C20_monitor_accepts_model : forall c evs, (0 < c_idle c)%N ->
   dir_ok (DcStreamProofs.obs_of (run c evs)) = true.
@@ -175,4 +180,5 @@ Print Assumptions C20_dc_coverage.
 Print Assumptions C20_dc_measure.
 Print Assumptions C20_dc_eventual_delivery.
 Print Assumptions C20_dcsim_judge_sound.
+Print Assumptions C20_dcrecv_judge_sound.
 Print Assumptions C20_monitor_accepts_model.
